@@ -57,7 +57,12 @@ def _get_unmarshaller(  # type: ignore[return]
     node: graph.TypeNode,
     context: routines.ContextT,
 ) -> routines.AbstractUnmarshaller[T]:
-    if node.type in context:
+    # A type which is re-visited in the graph is resolved lazily.
+    if node.cyclic and not inspection.isforwardref(node.type):
+        return DelayedUnmarshaller(node.type, context=context, var=node.var)
+
+    # Re-use a routine we've already built, unless it's a lazy placeholder.
+    if node.type in context and not isinstance(context[node.type], DelayedUnmarshaller):
         return context[node.type]
 
     for check, unmarshaller_cls in _HANDLERS.items():
